@@ -429,13 +429,22 @@ func (st *State) evalInstr(fr *frame, ins ssa.Value) Value {
 			return it
 		case StrV:
 			if m.sym != nil {
-				panic(engineGap("range over a string with symbolic bytes"))
+				return &rangeIter{isS: true, sym: m.sym}
 			}
 			return &rangeIter{isS: true, str: m.s}
 		}
 		panic(engineGap("range over unsupported value"))
 	case *ssa.Next:
 		it := st.get(fr, x.Iter).(*rangeIter)
+		if it.isS && it.sym != nil {
+			if it.pos >= len(it.sym) {
+				return TupleV{st.ts.False, st.ts.BV(64, 0), st.ts.BV(32, 0)}
+			}
+			r, sz := st.decodeRuneSym(it.sym[it.pos:])
+			p := it.pos
+			it.pos += sz
+			return TupleV{st.ts.True, st.ts.BV(64, uint64(p)), r}
+		}
 		if it.isS {
 			if it.pos >= len(it.str) {
 				return TupleV{st.ts.False, st.ts.BV(64, 0), st.ts.BV(32, 0)}
@@ -458,6 +467,52 @@ func (st *State) evalInstr(fr *frame, ins ssa.Value) Value {
 		panic("phi handled at block entry")
 	}
 	panic(engineGap(fmt.Sprintf("unsupported value instruction %T", ins)))
+}
+
+// decodeRuneSym is utf8.DecodeRune on symbolic bytes: the path forks on the class of the leading byte
+// and on the validity of each continuation byte (the accept ranges of unicode/utf8), so that the width
+// is concrete on every path and the rune is a term over the bytes.
+func (st *State) decodeRuneSym(b []*Term) (*Term, int) {
+	ts := st.ts
+	c8 := func(v uint64) *Term { return ts.BV(8, v) }
+	in := func(x *Term, lo, hi uint64) *Term {
+		return ts.And(ts.bvcmp(OBvUle, c8(lo), x), ts.bvcmp(OBvUle, x, c8(hi)))
+	}
+	z := func(x *Term, mask uint64) *Term { return ts.Resize(ts.bvbin(OBvAnd, x, c8(mask)), 32, false) }
+	shl := func(x *Term, k uint64) *Term { return ts.bvbin(OBvShl, x, ts.BV(32, k)) }
+	or := func(x, y *Term) *Term { return ts.bvbin(OBvOr, x, y) }
+	bad := func() (*Term, int) { return ts.BV(32, 0xFFFD), 1 }
+	b0 := b[0]
+	if st.branch(ts.bvcmp(OBvUlt, b0, c8(0x80))) {
+		return ts.Resize(b0, 32, false), 1
+	}
+	type class struct {
+		lo, hi   uint64 // leading byte range
+		n        int    // width
+		slo, shi uint64 // accept range of the second byte
+		mask     uint64
+	}
+	for _, c := range []class{
+		{0xC2, 0xDF, 2, 0x80, 0xBF, 0x1F},
+		{0xE0, 0xE0, 3, 0xA0, 0xBF, 0x0F}, {0xE1, 0xEC, 3, 0x80, 0xBF, 0x0F}, {0xED, 0xED, 3, 0x80, 0x9F, 0x0F}, {0xEE, 0xEF, 3, 0x80, 0xBF, 0x0F},
+		{0xF0, 0xF0, 4, 0x90, 0xBF, 0x07}, {0xF1, 0xF3, 4, 0x80, 0xBF, 0x07}, {0xF4, 0xF4, 4, 0x80, 0x8F, 0x07},
+	} {
+		if !st.branch(in(b0, c.lo, c.hi)) {
+			continue
+		}
+		if len(b) < c.n || !st.branch(in(b[1], c.slo, c.shi)) {
+			return bad()
+		}
+		r := or(shl(z(b0, c.mask), 6), z(b[1], 0x3F))
+		for k := 2; k < c.n; k++ {
+			if !st.branch(in(b[k], 0x80, 0xBF)) {
+				return bad()
+			}
+			r = or(shl(r, 6), z(b[k], 0x3F))
+		}
+		return r, c.n
+	}
+	return bad()
 }
 
 func decodeRune(s string) (rune, int) {
